@@ -39,7 +39,7 @@ TConstruct ==
 TMatch ==
     /\ verdict = "run" /\ l <= Len(Traces[tid]) /\ pending # {}
     /\ \E h \in pending : Match(h)
-    /\ lastEff'[2] = CfgOf(Cfg[Ev.rule])
+    /\ lastEff'.eff = CfgOf(Cfg[Ev.rule])
     /\ Ev.res = Ev.fresh
     /\ l' = l + 1
     /\ UNCHANGED <<tid, verdict>>
